@@ -697,6 +697,15 @@ func (d *Document) addHeaderReference(headerType HeaderFooterType, headerID stri
 		sectPr.XmlnsR = "http://schemas.openxmlformats.org/officeDocument/2006/relationships"
 	}
 
+	// 每种类型只保留一个引用：再次添加同一类型的页眉时，更新已有引用指向新的关系，
+	// 否则节属性里会出现两个同类型的 w:headerReference
+	for _, ref := range sectPr.HeaderReferences {
+		if ref != nil && ref.Type == string(headerType) {
+			ref.ID = headerID
+			return
+		}
+	}
+
 	headerRef := &HeaderFooterReference{
 		Type: string(headerType),
 		ID:   headerID,
@@ -712,6 +721,14 @@ func (d *Document) addFooterReference(footerType HeaderFooterType, footerID stri
 	// 确保设置关系命名空间
 	if sectPr.XmlnsR == "" {
 		sectPr.XmlnsR = "http://schemas.openxmlformats.org/officeDocument/2006/relationships"
+	}
+
+	// 每种类型只保留一个引用（同 addHeaderReference）
+	for _, ref := range sectPr.FooterReferences {
+		if ref != nil && ref.Type == string(footerType) {
+			ref.ID = footerID
+			return
+		}
 	}
 
 	footerRef := &FooterReference{
